@@ -16,6 +16,7 @@ import RedoModel.WaitsWire
 import RedoModel.PathsSemWire
 import RedoModel.LogFollowWire
 import RedoModel.ParWire
+import RedoModel.CyclesWire
 open RedoModel RedoModel.Wire
 
 def decList (s : String) : Option (List (List Char)) :=
@@ -137,6 +138,7 @@ def respond (line : String) : String :=
   | ["once-replay", evs] => OnceWire.respond evs
   | ["logfollow-replay", evs] => LogFollowWire.respond evs
   | ["logfollow-run", insts, ph, evs] => LogFollowWire.respondRun insts ph evs
+  | ["cycles", v, ops] => CyclesWire.respond v ops
   | ["par-replay", graph, pre, evs] => ParWire.respond graph pre evs
   | ["par-serial", graph, pre, tops] => ParWire.respondSerial graph pre tops
   | ["waits-replay", reach, evs] => WaitsWire.respond reach evs
